@@ -30,5 +30,5 @@ OBLIGATIONS.append(dict(id='C14.pure.models', harness=_path, entry='h_pure_model
            'arithmetic results abstracted (fpa): only the write-set, memory safety and termination are claimed'],
     assumes=['random models may write the world\'s random engine (excluded from C14 by the statement)'], outside=['the slab/fault/area feature property functions themselves (C02/C06 harnesses)']))
 # the non-default "apply spline" branch of the mass conserving slab temperature (thorough tier only: thousands of paths); stores are reported where they happen
-OBLIGATIONS.append(dict(OBLIGATIONS[-1], id='C14.pure.spline', entry='h_pure_model_spline', cases=[], cases_thorough=[(i,) for i in _skip], expect=[], time_cap_thorough=2400,
-    bounds='mass conserving slab temperature with "apply spline": true and 2 spline points per side; the write-set is reported at the store, so paths cut by the time cap still count'))
+OBLIGATIONS.append(dict(OBLIGATIONS[-1], id='C14.pure.spline', entry='h_pure_model_spline', cases=[], cases_thorough=[(i,) for i in _skip], expect=[], time_cap_thorough=900, writes_only=True,
+    bounds='mass conserving slab temperature with "apply spline": true and 2 spline points per side; the write-set is reported at the store, so paths cut by the time cap still count; index arithmetic of the spline evaluation is over-approximated by the abstract reading, so memory reports are not claimed here (writes only)'))
